@@ -525,7 +525,6 @@ func runSortBound(p *core.Prog) *core.Result {
 	return res
 }
 
-
 // reachesReturnAvoiding: can a return be reached from block `from` without passing block `avoid`?
 func reachesReturnAvoiding(from, avoid *ssa.BasicBlock) bool {
 	seen := map[*ssa.BasicBlock]bool{}
